@@ -462,7 +462,7 @@ def run(ctx, selftest=False):
         if ce:
             ctx.sample({'as_implemented_counterexample': cfg, 'last_step': ce[-1][1].get('last')})
     if thorough:
-        for cfg in ['MC_RegStore_tim_big.cfg', 'MC_RegStore_emu_big.cfg']:
+        for cfg in ['MC_RegStore_tim_big.cfg', 'MC_RegStore_tim_deep.cfg', 'MC_RegStore_emu_big.cfg']:
             r = ctx.tlc_expect_ok(DIRS, 'MC_RegStore.tla', cfg, workers=min(vlib.NCPU, 8), timeout=3000)
             ctx.log('%s: %d distinct states, depth %d' % (cfg, r.distinct, r.depth))
     ctx.cov['exhaustive'] = True
